@@ -4,6 +4,7 @@ commit / rollback, key-permission rule, local-prefix rule) whose TLC-generated b
 test node with synthetic script executors registered through the public dapp.Register."""
 import json
 import os
+import re
 
 FAMILY = 'Exec'
 DRIVER = 'exec'
@@ -52,11 +53,29 @@ PROPS = {
 }
 
 
+def _mc(ctx, cfg, **kw):
+    """Exhaustive TLC run that must have completed (a killed or crashed TLC is a machinery failure)."""
+    res = ctx.tlc_mc('Exec_MC', cfg, **kw)
+    if res.get('rc') != 0 or 'Model checking completed' not in res.get('out', ''):
+        raise vlib.Broken('TLC did not complete %s (rc=%s)' % (cfg, res.get('rc')))
+    return res
+
+
 def _coverage_ok(ctx, res, allow=()):
-    """-coverage 1: an action of Next that was never taken makes the run vacuous."""
-    zeros = [z for z in res.get('zero_actions', []) if not any(a in z for a in allow)]
+    """-coverage 1: an action of Next that was never taken makes the run vacuous (except the actions the
+    configuration switches off on purpose). TLC names a disjunct of Next by its source location."""
+    src = open(os.path.join(vlib.SPEC, 'Exec', 'Exec.tla')).read().splitlines()
+    zeros = []
+    for z in res.get('zero_actions', []):
+        m = re.search(r'\((\d+) \d+ (\d+) \d+\)', z)
+        text = z
+        if m:
+            text += ' ' + ' '.join(src[int(m.group(1)) - 1:int(m.group(2))])
+        if not any(a in text for a in allow):
+            zeros.append(text.strip()[:160])
     if zeros:
         raise vlib.Broken('vacuous exhaustive run, actions never taken: %s' % zeros[:5])
+    ctx.extra['coverage_all_enabled_actions_taken'] = True
 
 
 def _replay_selftest(ctx, b, bs, opts, field='tys'):
@@ -94,9 +113,9 @@ def _c11(ctx, b, q):
     ctx.assumptions += ['synthetic executors registered through dapp.Register', 'height after all forks (title local)',
                         'TLC bounds: 2+2 keys, <=4 items, groups <=3, 2 blocks']
     if q:
-        ctx.tlc_mc('Exec_MC', 'Exec_MC.cfg', workers=4, timeout=3600)
+        _mc(ctx, 'Exec_MC.cfg', workers=4, timeout=3600)
     else:
-        res = ctx.tlc_mc('Exec_MC', 'Exec_MCt.cfg', workers=6, timeout=14400, coverage=True)
+        res = _mc(ctx, 'Exec_MCt.cfg', workers=6, timeout=14400, coverage=True)
         _coverage_ok(ctx, res, allow=('Run', 'Activity', 'TxReject'))
     n = 300 if q else 2000
     bs = ctx.tlc_sim('Exec_MC', 'Exec_C11_Gen.cfg', num=n, depth=70, keep_init=True, timeout=7200)
@@ -124,9 +143,9 @@ def _c12(ctx, b, q):
     ctx.assumptions += ['IsFriend of the synthetic executors approves marked keys only; real executors approve nothing for them',
                         'height after ForkExecKey', 'TLC bounds: 7 namespaces x 5 deposit areas x friend mark + malformed keys, 5 names']
     if q:
-        ctx.tlc_mc('Exec_MC', 'Exec_C12_MC.cfg', workers=4, timeout=3600)
+        _mc(ctx, 'Exec_C12_MC.cfg', workers=4, timeout=3600)
     else:
-        res = ctx.tlc_mc('Exec_MC', 'Exec_C12_MCt.cfg', workers=6, timeout=14400, coverage=True)
+        res = _mc(ctx, 'Exec_C12_MCt.cfg', workers=6, timeout=14400, coverage=True)
         _coverage_ok(ctx, res, allow=('Run', 'Activity', 'TxRead("L"', 'TxList', 'TxFail', 'TxLocalFail'))
     rows, oks = 0, 0
     first = None
@@ -212,9 +231,9 @@ def _c13(ctx, b, q):
                         'blocks are rebuilt byte-identically in every process (fixed nonces, deterministic signatures)',
                         'executor-side MVCC plugin off (it cannot execute block 1 at all)']
     if q:
-        ctx.tlc_mc('Exec_MC', 'Exec_C13_MC.cfg', workers=4, timeout=3600)
+        _mc(ctx, 'Exec_C13_MC.cfg', workers=4, timeout=3600)
     else:
-        res = ctx.tlc_mc('Exec_MC', 'Exec_C13_MCt.cfg', workers=6, timeout=14400, coverage=True)
+        res = _mc(ctx, 'Exec_C13_MCt.cfg', workers=6, timeout=14400, coverage=True)
         _coverage_ok(ctx, res, allow=('TxReject', 'TxList', 'TxLocalFail'))
     n = 16 if q else 100
     bs = ctx.tlc_sim('Exec_MC', 'Exec_C13_Gen.cfg', num=n, depth=45, keep_init=True, timeout=7200)
